@@ -388,7 +388,46 @@ func main() {
 	target := *out
 	if !strings.HasSuffix(target, ".lean") {
 		os.MkdirAll(target, 0o755)
-		writeIfChanged(filepath.Join(target, "Skeleton.lean"), skelText("SaoVerif.Generated.Skel", "GENERATED by /verif/harness/cmd/extract from the Go source tree on every check run. Do not edit."))
+		// one generated module per source file (Generated/Skel/<file>.lean), so that a change of one file re-checks only the
+		// theorems about that file; modules of files that no longer exist are removed
+		skdir := filepath.Join(target, "Skel")
+		os.MkdirAll(skdir, 0o755)
+		keep := map[string]bool{}
+		for i := 0; i < len(skeleton); {
+			j := i
+			for j < len(skeleton) && skeleton[j].file == skeleton[i].file {
+				j++
+			}
+			name := mangle(skeleton[i].file)
+			var sb strings.Builder
+			fmt.Fprintf(&sb, "/-! GENERATED by /verif/harness/cmd/extract from %s on every check run. Do not edit. -/\nnamespace SaoVerif.Generated.Skel\n\ndef %s : List (String × List String) := [\n", skeleton[i].file, name)
+			for k := i; k < j; k++ {
+				sep := ","
+				if k == j-1 {
+					sep = ""
+				}
+				fmt.Fprintf(&sb, "  (%q, [", skeleton[k].fn)
+				for m, c := range skeleton[k].conds {
+					if m > 0 {
+						sb.WriteString(", ")
+					}
+					fmt.Fprintf(&sb, "%q", c)
+				}
+				fmt.Fprintf(&sb, "])%s\n", sep)
+			}
+			sb.WriteString("]\n\nend SaoVerif.Generated.Skel\n")
+			writeIfChanged(filepath.Join(skdir, name+".lean"), sb.String())
+			keep[name+".lean"] = true
+			i = j
+		}
+		if ents, err := os.ReadDir(skdir); err == nil {
+			for _, e := range ents {
+				if !keep[e.Name()] {
+					os.Remove(filepath.Join(skdir, e.Name()))
+				}
+			}
+		}
+		os.Remove(filepath.Join(target, "Skeleton.lean"))
 		target = filepath.Join(target, "Facts.lean")
 	}
 	// leave the file alone when nothing changed, so that lake does not rebuild its dependants
